@@ -287,7 +287,7 @@ func (h *HttpServer) handleStreamInit(w http.ResponseWriter, r *http.Request) {
 		// The producer's first turn folds into this /init request, so the init
 		// request's custom metadata is what the pipe transports would have
 		// delivered on the first tick batch.
-		finished, err := h.runProduceLoop(ctx, writer, outputSchema, state.(ProducerState), info, stats, auth, transportMeta, callCtx.Cookies, callCtx.stickySink, requestMetadata(req))
+		finished, err := h.runProduceLoopBody(ctx, &buf, writer, outputSchema, state.(ProducerState), info, stats, auth, transportMeta, callCtx.Cookies, callCtx.stickySink, requestMetadata(req))
 		handlerErr = err
 		if err == nil && !finished {
 			// Batch limit reached — append continuation token
@@ -665,7 +665,7 @@ func (h *HttpServer) handleProducerContinuation(ctx context.Context, w http.Resp
 	// framework's own transport keys are stripped first — the pipe transports
 	// never put them on a tick, and the stream-state value is a sealed cursor
 	// token that must not surface to user code.
-	finished, err := h.runProduceLoop(ctx, writer, schema, state, info, stats, auth, transportMeta, cookies, sink, stripFrameworkTickMetadata(requestMeta))
+	finished, err := h.runProduceLoopBody(ctx, &buf, writer, schema, state, info, stats, auth, transportMeta, cookies, sink, stripFrameworkTickMetadata(requestMeta))
 	if err == nil && !finished {
 		// Batch limit reached — append continuation token
 		token, tokenErr := h.packCursorTokenFor(callID, info.Name, state, auth)
@@ -1016,6 +1016,13 @@ func stripFrameworkTickMetadata(meta arrow.Metadata) arrow.Metadata {
 // client has no opportunity to update mid-turn.
 func (h *HttpServer) runProduceLoop(ctx context.Context, writer *ipc.Writer, schema *arrow.Schema,
 	state ProducerState, info *methodInfo, stats *CallStatistics, auth *AuthContext, transportMeta map[string]string, cookies map[string]string, sink *stickySink, firstTickMeta arrow.Metadata) (bool, error) {
+	return h.runProduceLoopBody(ctx, nil, writer, schema, state, info, stats, auth, transportMeta, cookies, sink, firstTickMeta)
+}
+
+// runProduceLoopBody is runProduceLoop with the response body the writer
+// feeds, so the loop can honour max_response_bytes (body == nil: no wire cap).
+func (h *HttpServer) runProduceLoopBody(ctx context.Context, body *bytes.Buffer, writer *ipc.Writer, schema *arrow.Schema,
+	state ProducerState, info *methodInfo, stats *CallStatistics, auth *AuthContext, transportMeta map[string]string, cookies map[string]string, sink *stickySink, firstTickMeta arrow.Metadata) (bool, error) {
 
 	dataBatches := 0
 	firstTick := true
@@ -1155,6 +1162,13 @@ func (h *HttpServer) runProduceLoop(ctx context.Context, writer *ipc.Writer, sch
 
 		// Check batch limit
 		if h.producerBatchLimit > 0 && dataBatches >= h.producerBatchLimit {
+			return false, nil
+		}
+
+		// Soft wire cap: once the body has reached max_response_bytes, stop
+		// and let a continuation token carry the rest of the stream, so a
+		// response overshoots the cap by at most the batch just written.
+		if body != nil && h.maxResponseBytes > 0 && dataBatches > 0 && int64(body.Len()) >= h.maxResponseBytes {
 			return false, nil
 		}
 	}
